@@ -8,6 +8,8 @@ package xpair
 //@   immutable: p s closeQ
 //@
 //@ struct socket
+//@   close_token closeQ when closed
+//@   close_token sizeQ
 //@   lock Mutex level 20
 //@   guarded_by Mutex: closed sizeQ peer recvQLen sendQLen recvExpire sendExpire bestEffort recvQ sendQ
 //@   immutable: closeQ
@@ -83,3 +85,6 @@ package xpair
 //@   before call:Unlock#1 assert (op != nil && op.p == pp) ==> s.peer == nil
 //@   before call:Unlock#1 assert !(op != nil && op.p == pp) ==> s.peer == op
 //@   before call:close#1 assert op != nil && op.p == pp
+//@
+//@ func (*socket).RemovePipe
+//@   may_close p.closeQ caller
